@@ -137,6 +137,9 @@ def main(tier):
                              "weights that the saved model quantizes in groups are quantized per-axis, outputs differ", tctx)
             elif not t["outputs_equal"]:
                 ck.violation(f"outputs of the {how} model after loading differ from the saved model's ({'frozen' if c['freeze'] else 'unfrozen'}, weights {c['weights']}, activations {c['activations']})", tctx)
+            if t.get("first_state_dict_unchanged") is False or t.get("saved_model_unchanged") is False:
+                ck.violation("loading a second checkpoint into a model modified the first state_dict it had been loaded from (or the model that state_dict came from): storage shared by the first load is written through",
+                             tctx)
             if not t["state_equal"]:
                 ck.violation(f"state_dict of the {how} model after loading differs from the saved one: {t['diff'][:3]}", tctx)
             if t["devices"] not in (["cpu"], []):
